@@ -32,6 +32,8 @@ pub struct Cfg {
     pub reverse_proxy: Option<(SocketAddr, String)>,
     pub rules: Option<trusttunnel::rules::RulesConfig>,
     pub speedtest: bool,
+    /// configure a metrics section (the listener itself is only started by Core::listen)
+    pub metrics: bool,
     pub main_hosts: Vec<(String, Vec<String>)>,
     pub ping_hosts: Vec<String>,
     pub speedtest_hosts: Vec<String>,
@@ -57,6 +59,7 @@ impl Default for Cfg {
             reverse_proxy: None,
             rules: None,
             speedtest: false,
+            metrics: false,
             main_hosts: vec![("m.t".to_string(), vec![])],
             ping_hosts: vec![],
             speedtest_hosts: vec![],
@@ -116,6 +119,15 @@ pub fn build_settings(cfg: &Cfg) -> Result<Settings, String> {
                 .server_address(*addr)
                 .map_err(|e| e.to_string())?
                 .path_mask(mask.clone())
+                .build()
+                .map_err(|e| format!("{e:?}"))?,
+        );
+    }
+    if cfg.metrics {
+        b = b.metrics(
+            trusttunnel::settings::MetricsSettings::builder()
+                .listen_address("127.0.0.1:1")
+                .map_err(|e| e.to_string())?
                 .build()
                 .map_err(|e| format!("{e:?}"))?,
         );
